@@ -282,3 +282,6 @@ def main(sess):
         fam_translate(sess, 'like')
     if not only or 'evaluator' in only:
         fam_evaluator(sess)
+    if not only or 'e2e' in only:
+        from drivers import e2e
+        e2e.family_for(sess, 'C12', quick_n=3)
